@@ -62,14 +62,22 @@ class Socket:
         try:
             if timeout != 0:
                 self.sock.settimeout(timeout)
-            data = self.sock.recv(256)
+            data = self._recv(256)
+            while len(data) < HEADER_SIZE:
+                data += self._recv(256)
             data_len = struct.unpack_from("<H", data, 2)[0]
             while len(data) - HEADER_SIZE < data_len:
-                data += self.sock.recv(256)
+                data += self._recv(256)
 
             return data
         except socket.error as err:
             raise CommError("socket connection broken") from err
+
+    def _recv(self, size):
+        chunk = self.sock.recv(size)
+        if not chunk:
+            raise CommError("socket connection broken.")
+        return chunk
 
     def close(self):
         self.sock.close()
